@@ -82,7 +82,7 @@ def app_call(run, ws, name, *args, **kw):
     try:
         getattr(ws, name)(*args, **kw)
         rec['ok'] = True
-    except Exception as e:   # noqa
+    except (Exception, KeyboardInterrupt, SystemExit) as e:   # noqa
         rec['exc'] = repr(e)
         rec['exc_type'] = type(e)
     rec['wrote'] = [e for e in w.log[before:] if e[0] in ('sendall', 'sendall_fault')]
@@ -119,6 +119,10 @@ class TablePolicy(object):
                 app_call(run, ws, act[0], *act[1:])
 
 
+CONNECT_ORDER = ('poll', 'ping_rate', 'ping_timeout', 'auto_pong', 'close_timeout')
+CONNECT_DEFAULTS = (5.0, 30.0, None, True, 30.0)
+
+
 def drive(world, url='ws://example.com/', ws_kwargs=None, connect_kwargs=None,
           policy=None, ws=None, stop_after=None, max_events=100000, headers=None,
           session_class=None, pre_iter=None, companion=None, via_iter=False):
@@ -135,6 +139,10 @@ def drive(world, url='ws://example.com/', ws_kwargs=None, connect_kwargs=None,
         if via_iter:
             # `for event in ws:` - the documented short form of connect() with its default arguments
             gen = iter(ws)
+        elif env.CASE_ENV.get('positional') and not (set(ckw) - set(CONNECT_ORDER)):
+            # connect(session_class, poll, ping_rate, ping_timeout, auto_pong, close_timeout): the documented signature,
+            # called the way the documentation's own examples and older applications do - without keywords
+            gen = ws.connect(session_class or simnet.SimSession, *[ckw.get(k, d) for k, d in zip(CONNECT_ORDER, CONNECT_DEFAULTS)])
         else:
             gen = ws.connect(session_class=session_class or simnet.SimSession, **ckw)
         run.gen = gen
